@@ -16,8 +16,8 @@ NA = {
 SIM = "deterministic simulation with fault injection: "
 TB = "Trusts the replica's field/group arithmetic and pairing value (C01, C02, C04, C05, C06: not applicable here) as the base of the reference models, which use reference paths (double-and-add, generic square-and-multiply), never the fast paths under judgement. Seeded sampling: a clean batch is evidence, not proof. x86-64 only (AArch64/ARMv6-M back ends not executed)."
 CLAIMED = {
- "C03": ("exploration", SIM + "six builds of the library loaded side by side as replicas, plus the AArch64 and ARMv6-M assembly sources run under the simulator's own interpreter as two more, driven in lock-step (register machine over the primitives with boundary constructors, including operands that steer the compare-and-subtract tail of reduction/multiplication/squaring to every depth; whole scheme histories with one random stream); run-time dispatch pointers flipped at seeded yield points inside operations; event logs must be bit-identical",
-         "Every primitive op is applied with identical inputs to x86-64 asm with BMI2/ADX dispatch, with baseline dispatch, the static -mbmi2 build, the g++ build, portable 64-bit-word and portable 32-bit-word C++, and to the eight hand-written routines of the AArch64 and of the ARMv6-M back end executed by an interpreter of their source text (with a monitor for out-of-operand memory accesses, unaligned accesses, non-Thumb-1 instruction forms and unrestored callee-saved registers); all written registers and carry/borrow flags are compared. Whole scheme histories (marshalled bytes, random-stream consumption) are compared on the six native builds. 4 of the 6 configurations run natively, the other 2 at the level of their assembly routines only.",
+ "C03": ("exploration", SIM + "seven builds of the library loaded side by side as replicas, plus the AArch64 and ARMv6-M assembly sources run under the simulator's own interpreter as two more, driven in lock-step (register machine over the primitives with boundary constructors, including operands that steer the compare-and-subtract tail of reduction/multiplication/squaring to every depth; whole scheme histories with one random stream); run-time dispatch pointers flipped at seeded yield points inside operations; event logs must be bit-identical",
+         "Every primitive op is applied with identical inputs to x86-64 asm with BMI2/ADX dispatch, with baseline dispatch, the static -mbmi2 -DNDEBUG release build, the g++ build, portable 64-bit-word C++ (optimised and as the -O0 debug build) and portable 32-bit-word C++ (plain char unsigned, as in the ARM ABIs), and to the eight hand-written routines of the AArch64 and of the ARMv6-M back end executed by an interpreter of their source text (with a monitor for out-of-operand memory accesses, unaligned accesses, non-Thumb-1 instruction forms and unrestored callee-saved registers); all written registers and carry/borrow flags are compared. Whole scheme histories (marshalled bytes, random-stream consumption) are compared on the native builds. 4 of the 6 configurations run natively, the other 2 at the level of their assembly routines only.",
          "Agreement of all replicas on a wrong value is C02's business and is not detected. The AArch64/ARMv6-M routines are judged through an interpreter written for this task (trusted: its instruction semantics, incl. the pre-UAL Thumb flag rules as GNU as assembles them); their C++ glue headers and everything above the eight routines are represented by the portable build of the same word size.", "5/C03 and 15.1-15.2", True),
  "C07": ("exploration", SIM + "target-group exponentiation driven by the simulator-owned random stream under stream faults (rejection storms, digits at |x|-1 and |x|, tuples recombining to r-1, r, r+1), judged by M-sample and by generic exponentiation; boundary exponents",
          "Claimed for the clause that names the byte stream: gt_multiply_random / random_gt must return the exponent M-sample derives from the recorded request sequence and base^y by two independent paths; fixed-exponent clauses are checked on stream-derived and listed boundary exponents (pure-function part, said so in DESIGN.md).", TB, "5/C07", True),
